@@ -45,7 +45,15 @@ RefuseFails(e) ==
 
 ReplayFails(e) == IF e.obs[Len(e.obs)].res = "ok" THEN {"countersignature-replayed-as-" \o e.r} ELSE {}
 
-Fails(e) == CASE e.flow = "bind" -> BindFails(e) [] e.flow = "refuse" -> RefuseFails(e) [] e.flow = "replay" -> ReplayFails(e)
+\* decoded list of n countersignatures: observations 2n+4 .. 5n+3 are (extract, verify under own key, verify under the next entry's key) per entry
+ListFails(e) ==
+  LET n == e.n  base == 2 * n + 4 IN
+  IF \E k \in 1..base : e.obs[k].res # "ok" THEN {"infra-list-program-did-not-run"} ELSE
+  UNION { (IF e.obs[base + 3 * (i - 1) + 1].res # "ok" THEN {"decoded-list-entry-cannot-be-extracted"} ELSE {})
+          \cup (IF e.obs[base + 3 * (i - 1) + 2].res # "ok" THEN {"decoded-list-entry-rejected-for-its-exact-parent"} ELSE {})
+          \cup (IF e.obs[base + 3 * (i - 1) + 3].res = "ok" THEN {"decoded-list-entry-verifies-under-another-countersigner's-key"} ELSE {})
+          : i \in 1..n }
+Fails(e) == CASE e.flow = "list" -> ListFails(e) [] e.flow = "bind" -> BindFails(e) [] e.flow = "refuse" -> RefuseFails(e) [] e.flow = "replay" -> ReplayFails(e)
 
 TInit == l = 1 /\ KitInit
 TNext == /\ l <= Len(Tr) /\ l' = l + 1
